@@ -8,7 +8,7 @@ use program_structure::report::{Report, ReportCollection};
 use program_structure::file_definition::{FileID, FileLocation};
 use program_structure::ir::declarations::Declaration;
 use program_structure::ir::variable_meta::{VariableMeta, VariableUse};
-use program_structure::ir::{Expression, SignalType, Statement, VariableType};
+use program_structure::ir::{AssignOp, Expression, SignalType, Statement, VariableType};
 
 use crate::constraint_analysis::run_constraint_analysis;
 use crate::taint_analysis::run_taint_analysis;
@@ -300,6 +300,25 @@ pub fn run_side_effect_analysis(cfg: &Cfg) -> ReportCollection {
 
     // Add input and output signals to this set.
     sinks.extend(exported_signals);
+
+    // A variable tainted by an input or output signal which occurs in a
+    // constraint is a sink, even if it is the only variable occurring in the
+    // constraint (in which case the constraint map has no entry for it).
+    for basic_block in cfg.iter() {
+        for stmt in basic_block.iter() {
+            if matches!(
+                stmt,
+                Statement::ConstraintEquality { .. }
+                    | Statement::Substitution { op: AssignOp::AssignConstraintSignal, .. }
+            ) {
+                sinks.extend(
+                    stmt.variables_used()
+                        .map(|var| var.name().clone())
+                        .filter(|name| exported_sinks.contains(name)),
+                );
+            }
+        }
+    }
     // println!("constraint sinks: {sinks:?}");
 
     // Add variables occurring in declarations, return values, asserts, and
